@@ -1,9 +1,160 @@
-/- C05 — placeholder while the proofs are being written -/
-import BioCantor.Spec.ReadingFrame
-import BioCantor.Model.CDS
-namespace BioCantor.Props.C05
-open BioCantor BioCantor.Spec BioCantor.Model
+/-
+  C05 — CDS codons, frame bookkeeping and translation follow one reading-frame model.
 
-theorem triples_nil : triples ([] : List Nat) = [] := rfl
+  Property theorems only (helper lemmas live in BioCantor/Proofs/CDS*.lean).  The reference semantics is
+  `Spec.refKept` (Spec/ReadingFrame.lean): walk the exons 5'→3', re-synchronise where an exon's annotated frame
+  differs from `|kept| mod 3`; codons are the consecutive triples of the kept positions.
+
+  What is proved here, for ALL exon layouts of positive-length, non-overlapping exons (any number of exons,
+  0-bp gaps included), both strands, all frame vectors (consistent or with programmed frameshifts):
+
+    T1  frame_cleaning_is_reference_walk   the frame-cleaning loop (rel_start/rel_end through
+                                           parent_to_relative_pos, `next_frame`, trimming `shift`) keeps
+                                           `next_frame = Σ cleaned lengths mod 3`, and its cleaned blocks read off
+                                           the CDS are exactly `Spec.cdsKept` — whenever the walk is `shallowTrim`
+                                           (otherwise the pinned code refuses the CDS: F-C05b)
+    T1' frame_shift_is_addition_mod3       the generated kernel `CDSFrame.shift`, for every integer shift
+        offset_after_cut                   `_calculate_frame_offset`'s  CDSPhase(d % 3).to_frame().value = (−d) mod 3
+    T2a fast_path_is_codon_concatenation   `extract_sequence` (fast path) = concatenation of the consecutive letter
+                                           triples from the offset on; length multiple of three;
+        codon_chunks_of_fast_path          re-chunking it by three (scan_codons / translate) gives those triples back
+    T3  translate_is_standard_code         the translation loop on the generated tables meets `Spec.okTranslateCodons`:
+                                           NCBI standard code, start rule per table (0 / 1 / 11), strict refusal,
+                                           truncation at the first in-frame stop; `gencode_is_ncbi_standard`
+    T4  generated_frames_are_one_reading_frame   construct_frames_from_location never re-synchronises: the walk keeps
+                                           every position after the first `starting_frame` (every layout, also
+                                           overlapping / empty blocks, as long as the 5' block holds the offset: F-C05h)
+    T5a window_offset_selects_inner_codons the window arithmetic: cutting d retained bases at the 5' end and iterating
+                                           triples from offset (−d) mod 3 yields exactly the codons lying inside
+
+  Resting on the correspondence run (stated, not proved — see the comments at the end): the composition of T1
+  with `relative_interval_to_parent_location` / `scan_windows` into `okCodons` for the returned Location objects
+  (T2 full), the cached codon path of `extract_sequence`, and T5 in terms of chromosome windows.
+-/
+import BioCantor.Proofs.CDSKept
+import BioCantor.Proofs.CDSConstructFrames
+import BioCantor.Proofs.CDSTranslate
+import BioCantor.Proofs.CDSFastPath
+namespace BioCantor.Props.C05
+open BioCantor BioCantor.Spec BioCantor.Model BioCantor.Proofs
+
+/-- What `CDSInterval.__init__` establishes plus the scope of C05: directional strand, exons of positive length
+    that do not overlap, one real frame (0/1/2) per exon. -/
+structure WFCDS (c : CDS) : Prop where
+  dir : c.loc.strand = .plus ∨ c.loc.strand = .minus
+  valid : blocksValid c.loc.blocks = true
+  nonOverlap : nonOverlap c.loc.blocks = true
+  positive : ∀ b ∈ c.loc.blocks, b.1 < b.2
+  frames_len : c.frames.length = c.loc.blocks.length
+  frames_real : ∀ f ∈ c.frames, f ≠ .NONE
+
+/-- the frame values of the model object, as the spec reads them -/
+def specFrames (c : CDS) : List Nat := c.frames.map (fun f => f.value.toNat)
+
+/-- **T1'** `CDSFrame.shift` (generated from gene/cds_frame.py) is addition modulo three for EVERY integer shift. -/
+theorem frame_shift_is_addition_mod3 (f : CDSFrame) (hf : f ≠ .NONE) (n : Int) :
+    ∃ g, frameShift f n = .ok g ∧ g.value = (f.value + n) % 3 ∧ g ≠ .NONE :=
+  frameShift_ok f hf n
+
+/-- **T1'** the offset `_calculate_frame_offset` derives from `d` bases cut at the 5' end is `(−d) mod 3`. -/
+theorem offset_after_cut (d : Int) :
+    (do let ph ← Model.phaseOfInt (d % 3); let fr ← phaseToFrame ph; pure fr.value : R Int) = .ok ((-d) % 3) :=
+  phase_frame_offset d
+
+/-- **T1** the frame-cleaning loop computes the reference walk.
+    `sliceOf (bases loc) (s, e)` is the stretch `[s, e)` of the CDS read 5'→3', i.e. what
+    `relative_interval_to_parent_location(s, e)` denotes by C01-T3. -/
+theorem frame_cleaning_is_reference_walk (c : CDS) (h : WFCDS c)
+    (hshallow : shallowTrim (exonWalk c.loc (specFrames c)) = true) :
+    ∃ st, cleanExons c.loc CleanSt.init (c.exonIter.zip c.frameIter) = .ok st ∧
+      st.nextFrame.value = cleanedSum st.cleanedRev % 3 ∧
+      (∀ p ∈ st.cleanedRev, 0 ≤ p.1 ∧ p.1 ≤ p.2) ∧
+      (st.cleanedRev.reverse.map (sliceOf (bases c.loc))).flatten = cdsKept c.loc (specFrames c) := by
+  rcases hc : c.loc with ⟨bs, strand⟩
+  rw [hc] at hshallow
+  have hdir : strand = .plus ∨ strand = .minus := by have := h.dir; rw [hc] at this; exact this
+  have hex : c.exonIter = scanOrder strand bs := by
+    unfold CDS.exonIter scanOrder; rw [hc]
+    rcases hdir with hd | hd <;> simp [hd]
+  have hfr : c.frameIter = (if strand = .minus then c.frames.reverse else c.frames) := by
+    unfold CDS.frameIter CDS.strand; rw [hc]
+  rw [hex, hfr]
+  have := cleanExons_cdsKept bs strand c.frames hdir (by have := h.valid; rw [hc] at this; exact this)
+    (by have := h.nonOverlap; rw [hc] at this; exact this) (by have := h.positive; rw [hc] at this; exact this)
+    (by have := h.frames_len; rw [hc] at this; exact this) h.frames_real
+    (by unfold specFrames at hshallow; exact hshallow)
+  exact this
+
+/-- **T2a** the fast path of `extract_sequence`: with `(location, offset)` prepared by
+    `_prepare_*_window_for_scan_codon_locations` and `s` the letters of that location (one per position), the
+    result is the concatenation of the consecutive triples of `s` from the offset on — a multiple of three. -/
+theorem fast_path_is_codon_concatenation (c : CDS) (loc : Location) (off : Int) (s : List Char) (hoff : 0 ≤ off)
+    (hp : prepare c none = .ok (loc, off)) (hs : locationSeq c.seq loc = .ok s) (hlen : s.length = locLen loc) :
+    extractSequence c = .ok (triples (s.drop off.toNat)).flatten ∧
+      (triples (s.drop off.toNat)).flatten.length % 3 = 0 :=
+  ⟨extractSequence_fast c loc off s hoff hp hs hlen, triples_flatten_length _⟩
+
+/-- **T2a** `seq[i:i+3] for i in range(0, len(seq), 3)` over the fast-path result returns the codons. -/
+theorem codon_chunks_of_fast_path (s : List Char) : chunks3 (triples s).flatten = triples s :=
+  chunks3_flatten_triples s
+
+/-- **T3** the generated `gencode` dictionary is the NCBI standard code, on every string. -/
+theorem gencode_is_ncbi_standard (v : List Char) : Gen.gencode.lookup v = standardCode v :=
+  gencode_eq_standard v
+
+/-- **T3** `translate` on a list of codons (upper case, letters `Codon` accepts): standard code, start-codon
+    rule of the table, `strict` refusal, truncation at the first in-frame stop. -/
+theorem translate_is_standard_code (trunc strict : Bool) (table : Nat) (ht : table = 0 ∨ table = 1 ∨ table = 11)
+    (cods : List (List Char)) (hok : ∀ cod ∈ cods, CodonOK cod) :
+    okTranslateCodons cods trunc table strict (ans (translateLoop trunc (table : Int) strict 0 cods)) = true :=
+  translateLoop_okTranslateCodons trunc strict table ht cods hok
+
+/-- **T4** frames generated for a location from a start offset describe one uninterrupted reading frame. -/
+theorem generated_frames_are_one_reading_frame (l : Location) (loc : Loc) (hl : toLoc l = some loc)
+    (hne : loc.blocks ≠ []) (hdir : loc.strand = .plus ∨ loc.strand = .minus) (f : CDSFrame) (hf : f ≠ .NONE)
+    (hfirst : loc.blocks.length = 1 ∨ f.value ≤ (firstLen loc : Int)) :
+    okFrames loc f.value.toNat ((ans (constructFramesFromLocation l f)).map frameVals) = true :=
+  constructFrames_ok l loc hl hne hdir f hf hfirst
+
+/-- **T5a** window arithmetic on the kept list: `d` retained bases lie before the window, `m` inside. -/
+theorem window_offset_selects_inner_codons (kept : List Nat) (d m : Nat) :
+    triples (((kept.drop d).take m).drop ((3 - d % 3) % 3)) =
+      ((triples kept).drop ((d + 2) / 3)).take ((d + m) / 3 - (d + 2) / 3) :=
+  window_triples kept d m
+
+/-! ### non-vacuity: concrete inputs satisfying the hypotheses -/
+
+/-- a minus-strand CDS with a 0-bp gap and a programmed frameshift (frame vector not consistent) -/
+def exampleCDS : CDS :=
+  { loc := ⟨[(2, 7), (7, 11), (14, 20)], .minus⟩, start := 2, «end» := 20,
+    frames := [.ONE, .TWO, .ZERO], seq := none }
+
+example : WFCDS exampleCDS := by
+  constructor <;> simp [exampleCDS] <;> decide
+example : shallowTrim (exonWalk exampleCDS.loc (specFrames exampleCDS)) = true := by decide
+-- the walk really re-synchronises here (twice): 10 of the 15 positions are kept
+example : (cdsKept exampleCDS.loc (specFrames exampleCDS)).length = 10 := by decide
+example : CodonOK "ATG".toList ∧ CodonOK "CTN".toList := by
+  refine ⟨⟨rfl, ?_⟩, ⟨rfl, ?_⟩⟩ <;> decide
+example : toLoc (.compound ⟨[(0, 5), (7, 11), (12, 18)], .minus⟩) = some ⟨[(0, 5), (7, 11), (12, 18)], .minus⟩ ∧
+    (CDSFrame.TWO).value ≤ (firstLen ⟨[(0, 5), (7, 11), (12, 18)], .minus⟩ : Int) := by decide
+
+/-! ### stated, not proved (these clauses rest on the correspondence run of harness/props/c05.py)
+
+  T2 (full) — codon locations.  For `c` with `WFCDS c`, `shallowTrim …`, `cdsKept … ≠ []`:
+      okCodons ⟨c.loc, specFrames c, c.seq⟩ none (ans (codonLocations c)) = true
+    i.e. every returned Location is well formed, on the CDS strand, and denotes the k-th triple of `cdsKept`.
+    Missing: the composition of `frame_cleaning_is_reference_walk` with C01-T3 (`relInterval_ok`) for the cleaned
+    blocks and for every `scan_windows` step (the cleaned location is Canon / NonOverlap, its bases are the
+    concatenated slices, `_calculate_frame_offset` returns 0).
+
+  T2 (cached path) — `extractSequenceCached c = extractSequence c`; needs C03 (sequence of a sub-interval is the
+    slice of the sequence).
+
+  T5 (full) — for a window [lo, hi):
+      okCodons ⟨…⟩ (some ⟨some lo, some hi, false⟩) (ans (scanChromosomeCodonLocations c (some ⟨some lo, some hi, false⟩))) = true
+    outside the catalogued deviation classes (Spec.codonsClass ≠ "unclassified": F-C05a, d, e, f, g).
+    Proved part: `window_offset_selects_inner_codons` + `offset_after_cut`.
+-/
 
 end BioCantor.Props.C05
